@@ -112,6 +112,7 @@ def sweep(algs, tier, seed, report, kinds, budget=None):
     rng = random.Random(seed)
     model = nv.Model()
     corr_diffs, violations = [], []
+    sampled = set()
     per_alg = budget or (2500 if tier == "quick" else None)
     n_random = 600 if tier == "quick" else 6000
     for alg in algs:
@@ -151,6 +152,8 @@ def sweep(algs, tier, seed, report, kinds, budget=None):
                 corr_diffs.append(dict(case, implementation=impl_line, model=ans))
             for kind, detail in check_case(alg, ps, b, st, out, kinds):
                 violations.append(dict(case, kind=kind, detail=detail, implementation=impl_line))
-            report.sample(dict(case, implementation=impl_line, model=ans))
+            if alg not in sampled and (st == 0 or st == 2 or (st == 1 and [tuple(o) for o in out] != [tuple(x) for x in b])):
+                sampled.add(alg)
+                report.sample(dict(case, implementation=impl_line, model=ans), cap=30)
         report.cov["traces_validated_against_impl"] += len(cases)
     return corr_diffs, violations
